@@ -429,8 +429,83 @@ func poolSkeleton(fset *token.FileSet, cf *ast.File, src []byte) string {
 	for _, g := range t.gor {
 		t.bodies[g] = prune(t.bodies[g])
 	}
+	// canonical names, so that renaming a channel, a counter or a closure does not change the skeleton:
+	// channels c0 c1 ... and sizes n0 n1 ... in order of creation, wait groups w0 ..., goroutines g0 ... in
+	// order of declaration; callee names of SCall / SErr* / SHook stay (they carry meaning)
+	ren := map[string]string{}
+	cnt := map[string]int{}
+	fresh := func(prefix, old string) {
+		if _, ok := ren[old]; !ok {
+			ren[old] = prefix + strconv.Itoa(cnt[prefix])
+			cnt[prefix]++
+		}
+	}
+	var declare func(ss []pstmt)
+	declare = func(ss []pstmt) {
+		for _, s := range ss {
+			switch s.op {
+			case "SConst", "SLen":
+				fresh("n", s.args[0])
+			case "SMake":
+				fresh("c", s.args[0])
+			case "SWaitGroup":
+				fresh("w", s.args[0])
+			}
+			declare(s.body)
+			for _, c := range s.cases {
+				declare(c)
+			}
+		}
+	}
+	declare(mainBody)
+	for _, g := range t.gor {
+		fresh("g", g)
+		declare(t.bodies[g])
+	}
+	rn := func(x string) string {
+		if y, ok := ren[x]; ok {
+			return y
+		}
+		return x
+	}
+	var apply func(ss []pstmt) []pstmt
+	apply = func(ss []pstmt) []pstmt {
+		out := make([]pstmt, len(ss))
+		for i, s := range ss {
+			n := s
+			n.args = append([]string{}, s.args...)
+			switch s.op {
+			case "SConst":
+				n.args[0] = rn(s.args[0])
+			case "SLen":
+				n.args[0] = rn(s.args[0]) // the measured collection keeps its name
+			case "SMake":
+				n.args[0], n.args[1] = rn(s.args[0]), rn(s.args[1])
+			case "SWaitGroup", "SSend", "SRecv", "SClose", "SDeferClose", "SRange", "SLoopN", "SWgAdd", "SGo":
+				n.args[0] = rn(s.args[0])
+			}
+			n.body = apply(s.body)
+			n.chans = nil
+			for _, c := range s.chans {
+				n.chans = append(n.chans, rn(c))
+			}
+			n.cases = nil
+			for _, c := range s.cases {
+				n.cases = append(n.cases, apply(c))
+			}
+			out[i] = n
+		}
+		return out
+	}
+	mainBody = apply(mainBody)
+	gor := make([]string, len(t.gor))
+	for i, g := range t.gor {
+		t.bodies[rn(g)] = apply(t.bodies[g])
+		gor[i] = rn(g)
+	}
+	t.gor = gor
 	var b strings.Builder
-	b.WriteString("(* graph.Initialize: goroutines and their channel / wait-group operations, in source order *)\n")
+	b.WriteString("(* graph.Initialize: goroutines and their channel / wait-group operations, in source order;\n   names are canonical: channels c<i>, sizes n<i>, wait groups w<i>, goroutines g<i> in order of creation *)\n")
 	b.WriteString("Definition pool_program : list (bytes * list pstmt) :=\n  [")
 	b.WriteString("(" + coqStr("Initialize") + ",\n    " + renderP(mainBody, "    ") + ")")
 	for _, g := range t.gor {
